@@ -15858,11 +15858,15 @@ func (p *PathAttributePmsiTunnel) Serialize(options ...*MarshallingOption) ([]by
 		return nil, err
 	}
 	buf = append(buf, tbuf...)
-	tbuf, err = p.TunnelID.Serialize()
-	if err != nil {
-		return nil, err
+	// TunnelID is nil when the attribute was only partially decoded
+	// (malformed PMSI_TUNNEL kept for treat-as-withdraw).
+	if p.TunnelID != nil {
+		tbuf, err = p.TunnelID.Serialize()
+		if err != nil {
+			return nil, err
+		}
+		buf = append(buf, tbuf...)
 	}
-	buf = append(buf, tbuf...)
 	return p.PathAttribute.Serialize(buf, options...)
 }
 
@@ -15877,6 +15881,10 @@ func (p *PathAttributePmsiTunnel) String() string {
 }
 
 func (p *PathAttributePmsiTunnel) MarshalJSON() ([]byte, error) {
+	tunnelID := ""
+	if p.TunnelID != nil {
+		tunnelID = p.TunnelID.String()
+	}
 	return json.Marshal(struct {
 		Type               BGPAttrType `json:"type"`
 		IsLeafInfoRequired bool        `json:"is-leaf-info-required"`
@@ -15888,7 +15896,7 @@ func (p *PathAttributePmsiTunnel) MarshalJSON() ([]byte, error) {
 		IsLeafInfoRequired: p.IsLeafInfoRequired,
 		TunnelType:         uint8(p.TunnelType),
 		Label:              p.Label,
-		TunnelID:           p.TunnelID.String(),
+		TunnelID:           tunnelID,
 	})
 }
 
